@@ -23,7 +23,7 @@ RULE = ("(a) Matchers: EVERY calendar date 1900-01-01..2154-12-31 against every 
         "date at an edge of the effective period. Distinct by (schedule, date).")
 ASSUMPTIONS = [
     "time-value lists are sorted with distinct times; exceptions have distinct priorities; date-range ends are fully specified or fully unspecified",
-    "TZ=UTC, so mktime has no daylight-saving steps",
+    "TZ=UTC except in the runs labelled timer:dst-zone (EST5EDT); there the three hours on either side of a clock change are not judged",
     "outside the effective period the present value is not judged (the statement does not fix it); the interpreter must keep running",
     "timer-driven runs use whole-minute transition times: the interpreter arms its timer with one-second resolution (hundredths are dropped), which is observed, not judged",
 ]
@@ -280,10 +280,40 @@ def check_eval(sched, dates, every_minute):
 
 # ---- (c) timer driven -------------------------------------------------------------------------------------------------------------------
 
-def check_timer(sched, start, days):
+def check_timer(sched, start, days, tz=None):
+    if tz is None:
+        return _check_timer(sched, start, days, None)
+    # a zone with daylight-saving time: the interpreter works on local wall-clock time
+    import os, time as _t
+    os.environ["TZ"] = tz
+    _t.tzset()
+    try:
+        return _check_timer(sched, start, days, tz)
+    finally:
+        os.environ["TZ"] = "UTC"
+        _t.tzset()
+
+
+def _local(t, tz):
+    """-> (date tuple, time tuple, iso text, judged?) of the virtual instant t in the zone under test"""
+    if tz is None:
+        d = datetime.datetime.utcfromtimestamp(t)
+        return (d.year - 1900, d.month, d.day, d.isoweekday()), (d.hour, d.minute, d.second, 0), d.isoformat(), True
+    import time as _t
+    lt = _t.localtime(t)
+    # around a clock change wall-clock time is not monotonic / has a gap: those hours are not judged
+    near = _t.localtime(t - 3 * 3600).tm_isdst != _t.localtime(t + 3 * 3600).tm_isdst
+    return (lt.tm_year - 1900, lt.tm_mon, lt.tm_mday, lt.tm_wday + 1), (lt.tm_hour, lt.tm_min, lt.tm_sec, 0), _t.strftime("%Y-%m-%dT%H:%M:%S %Z", lt), not near
+
+
+def _check_timer(sched, start, days, tz):
     """start: [y-1900, m, d]; run the real interpreter task under virtual time, compare presentValue every minute"""
     L = lib()
-    t0 = calendar.timegm((start[0] + 1900, start[1], start[2], 0, 0, 0)) + 37 * 60.0      # start at 00:37
+    if tz is None:
+        t0 = calendar.timegm((start[0] + 1900, start[1], start[2], 0, 0, 0)) + 37 * 60.0      # start at 00:37
+    else:
+        import time as _t
+        t0 = _t.mktime((start[0] + 1900, start[1], start[2], 0, 37, 0, 0, 0, -1))
     VC.reset(t0)
     boot.swallowed.take()
     so, app = build_schedule(sched)
@@ -305,10 +335,17 @@ def check_timer(sched, start, days):
             return [("timer:live-lock", "at %s the interpreter re-arms itself for the current instant over and over (20000 times): time cannot advance; schedule %r" % (d.isoformat(), sched))], n
         VC.clk.now = t
         n += 1
-        d = datetime.datetime.utcfromtimestamp(t)
-        date = (d.year - 1900, d.month, d.day, d.isoweekday())
-        tm = (d.hour, d.minute, d.second, 0)
+        date, tm, iso, judged = _local(t, tz)
+
+        class d(object):
+            @staticmethod
+            def isoformat():
+                return iso
         want = RS.evaluate(sched, date, tm)
+        if not judged:
+            boot.swallowed.take()
+            t += 60.0
+            continue
         sw = [r for r in boot.swallowed.take() if r[0]]
         if sw:
             return [("timer:task-raised:%s@%s" % (sw[0][0], sw[0][1]), "at %s the interpreter task raised %r; schedule %r" % (d.isoformat(), sw[0], sched))], n
@@ -341,8 +378,8 @@ def judge(case):
                 fails, n = check_eval(case["sched"], case["dates"], case.get("every_minute", False))
                 return Verdict(fails, sched_nontrivial(case["sched"], case["dates"]), ("eval",))
             if k == "timer":
-                fails, n = check_timer(case["sched"], case["start"], case["days"])
-                return Verdict(fails, True, ("timer",))
+                fails, n = check_timer(case["sched"], case["start"], case["days"], case.get("tz"))
+                return Verdict(fails, True, ("timer",) if not case.get("tz") else ("timer", "timer:dst-zone"))
     except Stall:
         return Verdict([("stall", "no return within 120 s")], True, ("stall",))
     raise ValueError(k)
@@ -428,3 +465,8 @@ def run(spec, ctx):
         starts = [[d.year - 1900, d.month, d.day] for d in probe_days[:6]] + [[124, 2, 20], [124, 3, 10]]
         strat = st.tuples(ss, st.sampled_from(starts), st.integers(3, 10)).map(lambda t: dict(k="timer", sched=t[0], start=t[1], days=t[2]))
         ctx.for_all(strat, spec["n"])
+        # the same in a zone that observes daylight-saving time: summer, winter, and across both clock changes
+        zone = "EST5EDT,M3.2.0,M11.1.0"
+        dst_starts = [[121, 7, 3], [121, 1, 9], [121, 3, 11], [121, 11, 4], [124, 6, 28]]
+        strat = st.tuples(ss, st.sampled_from(dst_starts), st.integers(3, 6)).map(lambda t: dict(k="timer", sched=t[0], start=t[1], days=t[2], tz=zone))
+        ctx.for_all(strat, max(4, spec["n"] // 2), salt=77)
